@@ -39,6 +39,12 @@ def _hardening(kind, Y0):
     if kind == 'power law':
         e0 = tm.var('eps0')
         return (lambda Y0_, e0_: Hardening.create_hardening_model({'hardening model': 'power law', 'yield strength': Y0_, 'hardening exponent': 4.0, 'reference plastic strain': e0_})), [e0], [e0 > 0]
+    if kind == 'linear+rate':
+        # rate sensitivity with exponent m = 1 (overstress linear in the plastic strain rate: stays polynomial)
+        Hm, Sr, ed0 = tm.var('Hmod'), tm.var('Srate'), tm.var('epsDot0')
+        return (lambda Y0_, Hm_, Sr_, ed0_: Hardening.create_hardening_model({'hardening model': 'linear', 'yield strength': Y0_, 'hardening modulus': Hm_,
+                                                                          'rate sensitivity': True, 'rate sensitivity stress': Sr_, 'rate sensitivity exponent': 1.0,
+                                                                          'reference plastic strain rate': ed0_})), [Hm, Sr, ed0], [Hm >= 0, Sr > 0, ed0 > 0]
     raise ValueError(kind)
 
 
@@ -54,6 +60,7 @@ def run(S):
     for kind in ('linear', 'voce', 'power law'):
         _hardening_laws(S, kind)
         _update(S, J2Plastic, ScalarRootFind, kind)
+    _update(S, J2Plastic, ScalarRootFind, 'linear+rate')
     _small_strain_commit(S, J2Plastic)
     bounded(S)
 
@@ -150,12 +157,14 @@ def _update(S, J2, SRF, kind):
     D = _dev(Es)
     n2 = _ddot(D, D)
     trialMises = 2 * mu * SQ32 * tm.sqrt(n2)
-    flow = lambda e: J.scalar(J.symbolic_call(lambda Y0_, e_, dt_, *p: make(Y0_, *p).compute_flow_stress(e_, e_, dt_), Y0, e, dt, *hp))
-    yielding = trialMises - flow(eq0) > tm.const(Fraction(1, 10**10)) * Y0
+    # flow stress at plastic strain e for a step that started at plastic strain eo (rate term: (e - eo)/dt)
+    flow2 = lambda e, eo: J.scalar(J.symbolic_call(lambda Y0_, e_, eo_, dt_, *p: make(Y0_, *p).compute_flow_stress(e_, eo_, dt_), Y0, e, eo, dt, *hp))
+    flow = lambda e: flow2(e, eq0)
+    yielding = trialMises - flow2(eq0, eq0) > tm.const(Fraction(1, 10**10)) * Y0
     thr = tm.const(Fraction(1, 10**16))
     pre = ppre + hpre + [eq0 >= 0, dt > 0, n2 > thr, yielding]
     mono = []
-    pows = [a for a in tm.apps_of(fl, fh, flow(eq0)) if a.data == 'pow']
+    pows = [a for a in tm.apps_of(fl, fh, flow2(eq0, eq0)) if a.data == 'pow']
     for a in pows:
         for b in pows:
             if a is not b:
@@ -177,18 +186,31 @@ def _update(S, J2, SRF, kind):
           tm.or_(tm.abs_((trialMises - 3 * mu * (root - eq0)) - flow(root)) < rtol, tm.eq((trialMises - 3 * mu * (root - eq0)) - flow(root), 0)))
     S.add(q + '/solver_tolerance_is_relative_to_yield_strength', pre, tm.eq(rtol, tm.const(Fraction(1, 10**10)) * Y0))
     # convexity: d r / d eqps = 3 mu + (flow stress)'  (lemma by ideal membership), and the flow stress is non-decreasing
-    dflow = J.scalar(J.symbolic_call(lambda Y0_, e_, dt_, *p: jax.grad(lambda ee: make(Y0_, *p).compute_flow_stress(ee, ee, dt_))(e_), Y0, root, dt, *hp))
+    dflow = J.scalar(J.symbolic_call(lambda Y0_, e_, eo_, dt_, *p: jax.grad(lambda ee: make(Y0_, *p).compute_flow_stress(ee, eo_, dt_))(e_), Y0, root, eq0, dt, *hp))
     _eq_by_cases(S, q + '/lemma_slope_of_residual_is_three_mu_plus_hardening_slope', pre, rprime, 3 * mu + dflow)
-    S.add(q + '/hardening_slope_nonnegative', ppre + hpre + [root >= eq0, eq0 >= 0], dflow >= 0, timeout=60000)
+    S.add(q + '/hardening_slope_nonnegative', ppre + hpre + [root >= eq0, eq0 >= 0, dt > 0], dflow >= 0, timeout=60000)
     S.add(q + '/incremental_potential_is_strictly_convex_in_the_plastic_increment', ppre + hpre + [tm.eq(rprime, 3 * mu + dflow), dflow >= 0], rprime > 0)
     # the elastic branch of compute_state_increment returns a zero increment (real lax.cond, branch chosen by hypothesis)
     ctx = J.Ctx()
-    ctx.cond_hook = lambda it: 0
+    seen_pred = []
+
+    def hook(it):
+        seen_pred.append(it)
+        return 0
+    ctx.cond_hook = hook
 
     def inc_elastic(Es_, state_, dt_, E_, nu_, Y0_, *hp_):
         return J2.compute_state_increment(Es_, state_, dt_, J2.make_properties(E_, nu_, Y0_), make(Y0_, *hp_))
     ze = J.to_obj(J.symbolic_call(inc_elastic, Es, state, dt, E_, nu_, Y0, *hp, ctx=ctx))
     S.add('J2Plastic.compute_state_increment[%s]/no_increment_when_not_yielding' % kind, ppre + hpre, tm.and_(*[tm.eq(ze[k], 0) for k in range(10)]))
+    # the branch predicate of the real lax.cond: yielding iff trial Mises stress exceeds the flow stress at the OLD plastic strain and zero
+    # plastic strain rate by more than the solver tolerance (so that a converged state is not updated again)
+    if seen_pred:
+        code_yielding = tm.eq(seen_pred[0], 1) if seen_pred[0].sort == tm.INT else seen_pred[0]
+        S.add('J2Plastic.compute_state_increment[%s]/yield_check_compares_trial_mises_stress_with_flow_stress_at_the_old_state' % kind,
+              ppre + hpre + [eq0 >= 0, dt > 0, n2 > thr], tm.eq(code_yielding, yielding), timeout=60000)
+    else:
+        S.add('J2Plastic.compute_state_increment[%s]/yield_check_compares_trial_mises_stress_with_flow_stress_at_the_old_state' % kind, [], tm.FALSE)
 
 
 def _eq_by_cases(S, cid, hyps, lhs, rhs):
